@@ -5,10 +5,10 @@ import "verifharness/vlib"
 func add(peer, cap int, tags []int, cgate, read bool) op {
 	return op{K: "add", Peer: peer, Cap: cap, Tags: tags, CGate: cgate, Read: read}
 }
-func bcast(tags ...int) op       { return op{K: "bcast", Tags: tags} }
-func byid(peers ...int) op       { return op{K: "byid", Peers: peers} }
+func bcast(tags ...int) op        { return op{K: "bcast", Tags: tags} }
+func byid(peers ...int) op        { return op{K: "byid", Peers: peers} }
 func release(sid int, ok bool) op { return op{K: "release", Sid: sid, Ok: ok} }
-func streams(tags ...int) op     { return op{K: "streams", Tags: tags} }
+func streams(tags ...int) op      { return op{K: "streams", Tags: tags} }
 
 // hand-made scenarios: every mechanism of the property at least once, deterministic
 func fixedCases() []caseDesc {
@@ -57,6 +57,11 @@ func fixedCases() []caseDesc {
 		{K: "sendstuck", Peer: 90}, {K: "send", Send: []sendPeer{{Peer: 1, Open: &openScript{Cap: 2, Tags: []int{3, 3}, CGate: true}}}},
 		{K: "send", Send: []sendPeer{{Peer: 1}, {Peer: 1}}}, {K: "send", Send: []sendPeer{{Peer: 1}}}, release(1, false), streams(3),
 		{K: "send", Send: []sendPeer{{Peer: 1}}}, {K: "closerel", Sid: 1}, {K: "send", Send: []sendPeer{{Peer: 1, Open: &openScript{Cap: 1, Tags: []int{3}}}}}, streams(3)}})
+	// H: the caller keeps its tags slice and creates two streams from it; tags of one stream are removed, then the other ends
+	sh := func(peer int, tags ...int) op { return op{K: "add", Peer: peer, Cap: 1, Tags: tags, Shared: true} }
+	cs = append(cs, caseDesc{Workers: 1, DialCap: 2, Kinds: "fixed", Ops: []op{
+		sh(1, 1, 2), sh(2, 1, 2), {K: "rmtagsid", Sid: 1, Tags: []int{1}}, streams(1, 2), bcast(1), bcast(2),
+		{K: "readerr", Sid: 2}, streams(1, 2), {K: "addtags", Sid: 1, Tags: []int{3}}, sh(3, 1, 2), streams(1, 2, 3), {K: "readerr", Sid: 1}, streams(1, 2, 3)}})
 	// G: SendById: first stream of the peer is full and blocked, the second one takes over
 	cs = append(cs, caseDesc{Workers: 1, DialCap: 2, Kinds: "fixed", Ops: []op{
 		add(1, 1, nil, false, false), add(1, 2, nil, false, false), byid(1), byid(1), byid(1), byid(1), byid(1), byid(1),
@@ -90,7 +95,9 @@ func genCase(r *vlib.Rand, k int) caseDesc {
 		if r.Chance(1, 25) {
 			cap = 0
 		}
-		d.Ops = append(d.Ops, add(1+r.Intn(3), cap, pickTags(r), r.Chance(1, 5), r.Bool()))
+		a := add(1+r.Intn(3), cap, pickTags(r), r.Chance(1, 5), r.Bool())
+		a.Shared = r.Chance(1, 4)
+		d.Ops = append(d.Ops, a)
 		nStreams++
 		if r.Chance(1, 3) {
 			blocked[nStreams] = true
